@@ -87,6 +87,86 @@ fn run_stack(
     .map_err(|p| format!("{}: panic: {}", STACKS[stack], p))
 }
 
+/// Two deviations: the virtual clock expires at probe `expiry` AND the hook fails at call `k`.
+fn run_stack_expiring(
+    alg: Algorithm,
+    stack: usize,
+    old: &[u8],
+    new: &[u8],
+    expiry: u64,
+    k: Option<usize>,
+) -> Result<(Vec<Call>, Result<(), usize>, u64), String> {
+    let (n, m) = (old.len(), new.len());
+    let mut probes = 0;
+    let r = subject(|| {
+        let clock = crate::instr::arm_clock(expiry);
+        let dl = crate::instr::some_deadline();
+        let out = match stack {
+            0 => {
+                let mut h = Rec::failing(k);
+                let r = raw_into(alg, 1, &mut h, old, 0..n, new, 0..m, dl);
+                (h.calls, r)
+            }
+            _ => {
+                let mut h = Compact::new(Replace::new(Rec::failing(k)), old, new);
+                let r = raw_into(alg, 1, &mut h, old, 0..n, new, 0..m, dl);
+                (h.into_inner().into_inner().calls, r)
+            }
+        };
+        probes = clock.probes.get();
+        out
+    })
+    .map_err(|p| format!("{} with expiry at probe {}: panic: {}", STACKS[if stack == 0 { 0 } else { 3 }], expiry, p))?;
+    Ok((r.0, r.1, probes))
+}
+
+/// every (expiry probe, failing call) combination of one input, for the bare hook and the
+/// full capture-style stack
+pub fn check_input_two_faults(alg: Algorithm, old: &[u8], new: &[u8]) -> Result<Out, String> {
+    let mut runs = 0;
+    let mut transitions = 0;
+    let mut fp = Fp::new();
+    let mut any = false;
+    for stack in [0usize, 1] {
+        let name = STACKS[if stack == 0 { 0 } else { 3 }];
+        let (_, _, pinf) = run_stack_expiring(alg, stack, old, new, u64::MAX, None)?;
+        runs += 1;
+        for expiry in 0..pinf {
+            let (success, r, _) = run_stack_expiring(alg, stack, old, new, expiry, None)?;
+            runs += 1;
+            if let Err(e) = r {
+                return Err(format!("{}, expiry at probe {}: diff returned Err({}) although no hook call failed", name, expiry, e));
+            }
+            if success.iter().filter(|c| **c == Call::Fin).count() != 1 || success.last() != Some(&Call::Fin) {
+                return Err(format!(
+                    "{}, expiry at probe {}: finish not called exactly once and last [calls: {}]",
+                    name, expiry, calls_to_string(&success)
+                ));
+            }
+            fp.add(calls_fp(&success));
+            for k in 0..success.len() {
+                any = true;
+                let (calls, r, _) = run_stack_expiring(alg, stack, old, new, expiry, Some(k))?;
+                runs += 1;
+                transitions += calls.len() as u64;
+                if r != Err(k) {
+                    return Err(format!(
+                        "{}, expiry at probe {}: hook failed at call {} but the diff returned {:?}",
+                        name, expiry, k, r
+                    ));
+                }
+                if calls.len() != k + 1 || calls[..] != success[..k + 1] {
+                    return Err(format!(
+                        "{}, expiry at probe {}: hook failed at call {}; it saw [{}], the run without the failure is [{}]",
+                        name, expiry, k, calls_to_string(&calls), calls_to_string(&success)
+                    ));
+                }
+            }
+        }
+    }
+    Ok(Out { nontrivial: any, transitions, fp: fp.0, runs })
+}
+
 fn expand_replace(calls: &[Call]) -> Vec<Call> {
     let mut v = vec![];
     for c in calls {
@@ -314,7 +394,7 @@ fn scopes(tier: Tier) -> Vec<Scope> {
 pub fn run(cfg: &RunCfg) -> CheckReport {
     let mut rep = CheckReport::new(
         "fault_enumeration",
-        "every (algorithm, old, new) from the listed scopes x 9 adapter stacks x failing call index k in {none} + 0..calls(success run of that stack); one case = one (algorithm, input) with all its stacks and k. Non-trivial: the bare success run has at least 3 hook calls. Cases distinct by construction. Plus a direct drive of NoFinishHook / &mut with every call kind and failure position.",
+        "every (algorithm, old, new) from the listed scopes x 9 adapter stacks x failing call index k in {none} + 0..calls(success run of that stack); one case = one (algorithm, input) with all its stacks and k. Non-trivial: the bare success run has at least 3 hook calls. Cases distinct by construction. Plus a direct drive of NoFinishHook / &mut with every call kind and failure position, and a second part with two deviations per run (deadline expiry at probe e via the virtual clock AND hook failure at call k, every combination) on a smaller scope.",
     );
     rep.assume("fault model: a hook call returns Err once (at call k); calls made after it are recorded and counted as violations");
     match wrapper_protocol() {
@@ -362,6 +442,41 @@ pub fn run(cfg: &RunCfg) -> CheckReport {
         });
     });
     rep.part("faults", json!({"scopes": space.describe(), "stacks": STACKS}), ex);
+    if rep.has_violation() {
+        return rep;
+    }
+    // deviation bound 2: deadline expiry at probe e AND a hook failure at call k
+    let space2 = PairSpace::new(match cfg.tier {
+        Tier::Quick => vec![Scope::P { k: 3, n: 5 }, Scope::P { k: 2, n: 7 }, Scope::R { l: 8 }],
+        Tier::Thorough => vec![Scope::P { k: 3, n: 6 }, Scope::P { k: 2, n: 9 }, Scope::R { l: 10 }],
+    });
+    let ex = explore(cfg, space2.nshards(), |shard, acc| {
+        space2.for_each(shard, |old, new| {
+            for &alg in ALGS.iter() {
+                match check_input_two_faults(alg, old, new) {
+                    Ok(o) => {
+                        if acc.want_sample() {
+                            let mut c = seq_case(alg, old, new);
+                            c["fault_runs"] = json!(o.runs);
+                            acc.sample(c);
+                        }
+                        acc.count("diff_runs_every_expiry_x_every_failing_call", o.runs);
+                        acc.ok(o.nontrivial, o.transitions, o.fp);
+                    }
+                    Err(e) => acc.violation(|| {
+                        let mut c = seq_case(alg, old, new);
+                        c["two_faults"] = json!(true);
+                        (c, e)
+                    }),
+                }
+                if acc.stop() {
+                    return false;
+                }
+            }
+            true
+        });
+    });
+    rep.part("expiry-and-failure", json!({"scopes": space2.describe(), "stacks": [STACKS[0], STACKS[3]], "faults": "every expiry probe x every failing call index"}), ex);
     rep
 }
 
@@ -372,5 +487,8 @@ pub fn replay(case: &Value) -> Result<String, String> {
     let alg = parse_alg(case)?;
     let old = parse_seq(case, "old")?;
     let new = parse_seq(case, "new")?;
+    if case.get("two_faults").is_some() {
+        return check_input_two_faults(alg, &old, &new).map(|o| format!("holds; {} runs, fingerprint {:x}", o.runs, o.fp));
+    }
     check_input(alg, &old, &new).map(|o| format!("holds; {} runs, fingerprint {:x}", o.runs, o.fp))
 }
